@@ -555,6 +555,10 @@ def _worker_init():
     sys.stdout = open(os.devnull, "w")      # strax prints ("Main generator exited irregularly?!")
     import logging
     logging.disable(logging.CRITICAL)
+    # a forked worker must not inherit the parent's pool of OS threads (they do not exist in the child)
+    from harness.sched import core
+    core.POOL = core._OSThreadPool()
+    core.CURRENT = None
 
 
 def run_tasks(tasks, nproc=None):
@@ -562,6 +566,8 @@ def run_tasks(tasks, nproc=None):
     nproc = nproc or min(16, os.cpu_count() or 4)
     if len(tasks) <= 1 or nproc <= 1:
         return [exec_task(t) for t in tasks]
+    from harness.sched.core import shutdown_pool
+    shutdown_pool()                          # no scheduler threads alive while forking
     ctxm = mp.get_context("fork")
     order = sorted(range(len(tasks)), key=lambda i: -tasks[i].get("weight", 1))
     with ctxm.Pool(nproc, initializer=_worker_init) as pool:
